@@ -488,6 +488,11 @@ class TransformationGraph(Graph):
 
         result_node = wfnode2tfmnode(wf.target())
 
+        # A resource may not have been reached yet (a tool that just hands on
+        # one input while declaring another), so make sure each has a node
+        for wfnode in exprs:
+            wfnode2tfmnode(wfnode)
+
         # If passthrough is disabled, connections between the outputs of one
         # tool and the inputs of the next are not established; do that now
         for source_expr, ref_expr in indirection.items():
@@ -509,9 +514,8 @@ class TransformationGraph(Graph):
         if self.with_classes:
             self.add((wf.root, RDF.type, TF.Transformation))
 
-        # A resource may not have been visited yet (a tool that just hands
-        # on one input while declaring another), so don't assume it has a node
-        return {wfnode: wfnode2tfmnode(wfnode) for wfnode in exprs}
+        return {wfnode: self.expr_nodes[expr]
+            for wfnode, expr in exprs.items()}
 
     def parse_shortcuts(self, remove: bool = True) -> None:
         """
